@@ -93,6 +93,16 @@ def env():
     from supybot.utils.str import decode_raw_line
     conf.supybot.protocols.irc.ping.setValue(False)
     conf.supybot.drivers.poll.setValue(0.0001)
+    # logging ON (boot switches it off): supybot.log.Logger._log runs every message through utils.str.format before any
+    # handler sees it, so a log call on the read path is code that can raise.  Level DEBUG = every log call formats.
+    import logging
+    logging.disable(logging.NOTSET)
+    lg = logging.getLogger('supybot')
+    for h in list(lg.handlers):
+        lg.removeHandler(h)
+    lg.addHandler(logging.NullHandler())
+    lg.propagate = False
+    lg.setLevel(logging.DEBUG)
     r, w = os.pipe()
     os.write(w, b'x')
     _env.update(conf=conf, irclib=irclib, drivers=drivers, ircmsgs=ircmsgs, world=world, log=log, S=S,
@@ -269,6 +279,7 @@ def run_impl(inp):
 
     def rec_exc(*a, **k):
         escaped.append(sys.exc_info()[1])
+        return old_exc(*a, **k)          # the real log call of the handler still runs (it may raise)
     drivers.log.exception = rec_exc
     escapes, crashed = [], False
     old_dec = S.decode_raw_line
@@ -559,6 +570,34 @@ def echo_line(rng):
     return b':' + o.replace(b' ', b'') + b'!u@h PRIVMSG test :\x01VERSION\x01'
 
 
+# utils.str.format directives (and look-alikes): every log call formats its template with them
+FMT_DIRS = ['%s', '%r', '%i', '%q', '%%', '%', '%p', '%L', '%n', '%S', '%t', '%T', '%u', '%v', '%b', '%h', '%f', '%.2f', '%5.1f', '%d', '%x',
+       '%%s', '%\u0663.\u0663f', '%(a)s', '%1', '%.f']
+# lines the parser rejects, carrying directives: they reach the log call of _read's per-line handler
+MALFORMED_FMT = [':%s', '@%s', '@%r', ':%i ', '@time=%s PING :x', '@a=%q', '@%%', ':%', '@time=%.2f :x PING y', ':%s%r%i%q', '@%s ',
+                 ':%5.1f', '@time=bad%s :x PING', ':%v', ':%L', '@%n', ':%%s', '@%(a)s', ':%\u0663.\u0663f', '@time :%s PING y']
+# well-formed lines carrying directives in every field that some handler logs
+CLEAN_FMT = ['PING :%s', 'PING %r', ':%s!u@h PRIVMSG #chan :%q %i', ':irc.srv 499 test :%s', ':irc.srv 401 test %s :No such nick %r',
+             'ERROR :%s', ':irc.srv 005 test %s=%r :are supported', ':irc.srv CAP * LS :%s %q=%i', ':irc.srv 433 * %s :in use', 'NOTICE %s :%r',
+             'XBOOM 12 %s', ':irc.srv 001 test :Welcome %s', ':%s 004 test %s %r io nt', ':irc.srv 376 test :%i', ':irc.srv 599 %s %r %i %q',
+             ':irc.srv 432 * %s :Erroneous', ':irc.srv 437 * %s :unavailable', ':other!x@y NICK %s', ':test!u@h JOIN #%s', ':irc.srv 353 test = #%s :%r %i',
+             ':irc.srv CAP * NAK :%s', 'AUTHENTICATE %s', ':irc.srv 904 test :%s', ':irc.srv 908 test %s :%r', '@%s=%r :x!y@z PRIVMSG test :%q',
+             ':irc.srv FAIL %s %r :%i', ':irc.srv WARN %s %r :%i', ':irc.srv 470 test #%s #%r :fwd', ':irc.srv 900 test %s %r :%i', '%s', '%r %s', '%% %']
+
+
+def fmt_line(rng):
+    k = rng.random()
+    if k < 0.35:
+        return rng.choice(MALFORMED_FMT)
+    if k < 0.7:
+        return rng.choice(CLEAN_FMT)
+    l = rng.choice(VALID + ABSURD + MALFORMED)
+    for _ in range(rng.randint(1, 3)):
+        i = rng.randrange(len(l) + 1)
+        l = l[:i] + rng.choice(FMT_DIRS) + l[i:]
+    return l
+
+
 def mutate(rng, l):
     k = rng.random()
     if k < 0.3:
@@ -575,6 +614,10 @@ def mutate(rng, l):
 
 
 CORPUS = [
+    # a rejected line carrying utils.str.format directives: the log call of _read's per-line handler formats it
+    {'chunks': [['d', ':%s\r\n'], ['d', 'PING :after\r\n']], 'cbs': [], 'addmsg': [], 'final_ping': 'after'},
+    {'chunks': [['d', '@%r\r\n@time=%.2f :x PING y\r\n:%i%q \r\nPING :%s\r\n'], ['d', 'PING :after\r\n']], 'cbs': [], 'addmsg': [],
+     'final_ping': 'after'},
     # the witnesses of the repaired findings C07.F4 and C07.F3 (reported again as violations if they ever return)
     {'chunks': [['d', ':\r\n'], ['d', 'PING :after\r\n']], 'cbs': [], 'addmsg': [], 'final_ping': 'after'},
     {'chunks': [['d', '@time :x PING y\r\n'], ['d', 'PING :after\r\n']], 'cbs': [], 'addmsg': [], 'final_ping': 'after'},
@@ -649,6 +692,11 @@ def gen_cases(ctx):
     for _ in range(ctx.n(400)):
         ls = [hostile_bytes(rng) if rng.random() < 0.7 else rng.choice(VALID) for _ in range(rng.randint(1, 6))]
         cases.append(('raw-bytes', mk_case(rng, ls)))
+    for l in MALFORMED_FMT + CLEAN_FMT:
+        cases.append(('format-single', mk_case(rng, [l], heavy=False, faults=False)))
+    for _ in range(ctx.n(500)):
+        ls = [fmt_line(rng) if rng.random() < 0.8 else rng.choice(VALID + ABSURD) for _ in range(rng.randint(1, 6))]
+        cases.append(('format-directives', mk_case(rng, ls, heavy=rng.random() < 0.5)))
     for o in ODD:
         for head in (b'PING :', b'PING ', b':s PING x :'):
             cases.append(('echo-single', mk_case(rng, [head + o], heavy=False, faults=False)))
@@ -692,6 +740,7 @@ def run(ctx):
     obss = []
     for kind, inp in cases:
         obss.append(check_case(ctx, kind, inp))
+    check_format_scanner(ctx, cases)
     outs = ctx.model([wire_case(inp, obs['_dispatch']) for (kind, inp), obs in zip(cases, obss)])
     for (kind, inp), obs, mo in zip(cases, obss, outs):
         if mo is None:
@@ -706,8 +755,31 @@ def run(ctx):
             ctx.disagree(inp, {k: v[0] for k, v in diff.items()}, {k: v[1] for k, v in diff.items()}, 'observables ' + ','.join(sorted(diff)))
 
 
+def check_format_scanner(ctx, cases):
+    """the model's scanner of utils.str.format directives against the real _formatRe, on every line of the cases"""
+    import supybot.utils.str as ustr
+    lines = set()
+    for _, inp in cases:
+        dec = decoder(inp)
+        for raw in stream_lines(inp):
+            lines.add(dec(raw))
+    lines |= set(FMT_DIRS) | {''.join(p) for p in __import__('itertools').product(['%', '.', '1', 'f', 's', '\u0663', 'x'], repeat=4)}
+    lines = sorted(l for l in lines if '%' in l)
+    outs = ctx.model([[3, l] for l in lines])
+    for l, o in zip(lines, outs):
+        if o is None:
+            continue
+        want = sum(1 for m in ustr._formatRe.finditer(l) if m.group(1) != '%')
+        inp = {'op': 'format-scan', 'line': l}
+        ctx.case('format-scanner', inp)
+        if o != want:
+            ctx.disagree(inp, o, want, 'argument-consuming directives of utils.str.format')
+
+
 def replay(ctx, inp):
     env()
+    if inp.get('op') == 'format-scan':
+        return None
     return oracle(inp, run_impl(inp))
 
 
